@@ -98,8 +98,8 @@ func VerifHarness_C17_Tick() {
 		}
 		rp := meta.RetentionPolicyInfo{Name: string(rune('p' + r)), ReplicaN: 1, Duration: dur, ShardGroupDuration: time.Hour}
 		maxG := 1
-		if vThorough() {
-			maxG = 2
+		if vThorough() && r == 0 {
+			maxG = 2 // thorough: the first policy may hold two groups
 		}
 		nG := vLen("groups", 0, maxG)
 		for g := 0; g < nG; g++ {
